@@ -3,7 +3,7 @@ import re
 from extract_core import extractor, read, strip_c_comments, c_array, c_ints, c_define
 
 
-@extractor
+@extractor(soft=True)
 def dh_consts(repo):
     msgs = []
     g14 = c_ints(c_array(read(repo, "crypto/crypto_dh_group14.c"), "crypto_dh_group14"))
